@@ -3,6 +3,7 @@
 package proxy
 
 import (
+	"crypto/tls"
 	"github.com/fabiolb/fabio/metrics"
 	"fmt"
 	"net/http"
@@ -67,7 +68,7 @@ func c13Expand(tmpl, escPath, query, host, strip, prepend string) (string, bool)
 
 func TestVerifC13Inputs(t *testing.T) {
 	L := ev.Begin("C13", "c13-inputs", "exploration",
-		"14 redirect templates (every form of docs/http-redirects.md and target_test.go, with/without own query, $host, $path with and without separating slash, an own path that needs escaping) x request path (incl. %2F, %20, %C3%A4, strip-prefix-only) x query x host (with/without port) x strip x prepend x code (301,302,303,307,308 valid; 299,400,abc invalid) x request kind (plain, websocket upgrade, event stream), served by the real HTTPProxy.ServeHTTP; oracle: status, Location = independent expansion on the escaped path, upstream never contacted; invalid codes never redirect, every code 300..399 answers with that code, path-changing redirects on the own host are issued. non-trivial = template with $path or $host")
+		"14 redirect templates (every form of docs/http-redirects.md and target_test.go, with/without own query, $host, $path with and without separating slash, an own path that needs escaping) x request path (incl. %2F, %20, %C3%A4, strip-prefix-only) x query x host (with/without port) x strip x prepend x code (301,302,303,307,308 valid; 299,400,abc invalid) x request kind (plain, websocket upgrade, event stream), served by the real HTTPProxy.ServeHTTP; oracle: status, Location = independent expansion on the escaped path, upstream never contacted; invalid codes never redirect, every code 300..399 answers with that code, path-changing redirects on the own host are issued; self redirects are recognised with the scheme named by X-Forwarded-Proto and, for directly connected clients, with the scheme of the connection. non-trivial = template with $path or $host")
 	paths := []string{"/", "/a", "/a/b", "/a%2Fb", "/a%20b", "/%C3%A4", "/s", "/s/a", "/s/a%2Fb"}
 	queries := []string{"", "q=1", "q=1&r=%2F"}
 	hosts := []string{"foo.com", "foo.com:8080"}
@@ -310,6 +311,36 @@ func TestVerifC13Inputs(t *testing.T) {
 						d["want_location"] = want
 						L.Violation("redirect-to-other-location-not-issued", d)
 					}
+				}
+			}
+		}
+	}
+	// the request's own scheme is the one of its connection when no proxy in front says otherwise: a client
+	// connected directly (no X-Forwarded-Proto) over TLS asks for https://..., one connected in the clear for http://...
+	for _, direct := range []struct {
+		name, scheme string
+		cs           *tls.ConnectionState
+	}{{"tls connection", "https", &tls.ConnectionState{}}, {"plain connection", "http", nil}} {
+		for _, tscheme := range []string{"https", "http"} {
+			for _, p := range []string{"/", "/a/b"} {
+				tm := tscheme + "://$host$path"
+				r.setTable("route add redir foo.com/ " + tm + " opts \"redirect=301\"\nroute add app / http://" + r.upAddr + "/\n")
+				r.script = script{status: 200, chunks: [][]byte{[]byte("app")}}
+				rec, _, hits, err := r.do(rawRequest("GET", p, "foo.com", nil, nil, false), "10.9.8.7:4711", direct.cs)
+				if err != nil {
+					panic(err)
+				}
+				L.Case()
+				L.NontrivialKey("self-direct" + direct.name + tm + p)
+				self := tscheme == direct.scheme
+				d := map[string]interface{}{"template": tm, "client": "connected directly, " + direct.name + ", no X-Forwarded-Proto", "request": p, "status": rec.Code, "location": rec.Header().Get("Location"), "upstream_hits": hits, "redirect_would_point_back": self}
+				if self {
+					if rec.Code != 200 || hits != 1 || rec.Body.String() != "app" {
+						L.Violation("self-redirect-not-skipped/direct-connection", d)
+					}
+				} else if want := tscheme + "://foo.com" + p; rec.Code != 301 || rec.Header().Get("Location") != want || hits != 0 {
+					d["want_location"] = want
+					L.Violation("redirect-to-other-location-not-issued", d)
 				}
 			}
 		}
